@@ -16,24 +16,37 @@ Theorems
   (evaluator) against `Vm.render` on the stored chunk;
 * `source_to_output_semantics`: source TEXT through `Pipeline.renderSourcesT` (lexer, whitespace
   filter, parser, compiler, optimiser, registry, VM) against the evaluator on the parsed AST.
-Any nesting fuel `≥ 1`, any step fuel `≥ N` (`N` depends on the run only).
+  Any nesting fuel `≥ 1`, any step fuel `≥ N` (`N` depends on the run only).
+* WITH `include` (every chunk of the table a stored = optimised chunk, transitively):
+  `stored_run_includes`, `stored_include_oracle`, `render_correct_optimized_includes`, and from
+  source text for a batch of sources `source_to_output_includes` (`template_entry_sources`: every
+  entry of the table after `addTemplatesT` holds the stored chunk of its source's compiled body).
+  Any step fuel `≥ N`, nesting fuel `≥ D`.  Through bC_opt's
+  `C09Vm.optimize_preserves_output_noblocks` (Props/C09VmLift.lean: any nesting fuel, no assumption
+  on nested calls, chunks without `RenderBlock` / `super()`), by induction on the evaluator's fuel
+  (see the section).  Extra executable hypothesis there: `codeNoBlockCalls` of the compiled bodies
+  (the domain check accepts `super()` as an ordinary function call; the evaluator answers
+  `unsupported` for it).
 
-Glue proved for this (Lemmas/RefineOpt.lean, RefineOptPipe.lean): the compiled code of an
-include-free in-domain AST has no `Include` (so its runs do not depend on the nested interpreter
-and `C09Vm` applies with nesting fuel 1, where it needs no assumption); an `interpret` call that
-ends with nesting fuel 1 ends the same way with any (`run_depth_irrel`); `Refine.embed` IS
-`Pipeline.typedCode`; the entry of the VM's table after a one-source `addTemplatesT`.
+Glue proved for this (Lemmas/RefineOpt.lean, RefineOptPipe.lean, RefineOptMono.lean,
+RefineOptIncl.lean): the compiled code of an include-free in-domain AST has no `Include` (so its
+runs do not depend on the nested interpreter and `C09Vm` applies with nesting fuel 1, where it
+needs no assumption); an `interpret` call that ends with nesting fuel 1 ends the same way with any
+(`run_depth_irrel`); `Refine.embed` IS `Pipeline.typedCode`; the entries of the VM's table after
+`addTemplatesT`; fuel monotonicity of the VM model (`interp_mono`).
 
-Outside (named propositions at the end): `include` across the optimiser
-(`render_correct_optimized_includes`), `parents = []` from a source without `extends`
-(`single_source_no_parents`; a hypothesis of `source_to_output_semantics`).  The error class across
-the optimiser, first a named gap, is now the theorem `render_correct_optimized_error_class`.  Blocks / inheritance: C04Vm; component calls: C05Vm (the
-evaluator does not model them).
+Outside (named proposition at the end): `parents = []` from a source without `extends`
+(`single_source_no_parents`; a hypothesis of the two source-level theorems).  The error class
+across the optimiser and the include lift, first named gaps, are now the theorems
+`render_correct_optimized_error_class` and `render_correct_optimized_includes`.  Blocks /
+inheritance: C04Vm; component calls: C05Vm (the evaluator does not model them).
 -/
 import TeraModel.Props.Refine
 import TeraModel.Props.C09Vm
 import TeraModel.Props.C09VmErr
+import TeraModel.Props.C09VmLift
 import TeraModel.Lemmas.RefineOptPipe
+import TeraModel.Lemmas.RefineOptIncl
 namespace Tera.RefineE2E
 open Tera Tera.Vm Tera.Compiler Tera.Refine
 
@@ -240,35 +253,305 @@ theorem source_to_output_semantics (cfg : Pipeline.Config) (name : String) (src 
     obtain ⟨re, hm, hre⟩ := hN steps depth hs
     exact ⟨re, hm, by rw [hrs, hre]⟩
 
-/-! ## What remains outside, as named propositions
+/-! ## What remains outside
 
 * blocks / inheritance (`tpl.parents ≠ []`, `RenderBlock`, `super()`): C04Vm; component calls: C05Vm —
   the evaluator Model/Eval.lean does not model them (`Err.unsupported`), so there is nothing to
   compose here.
-* `include` across the optimiser and `parents = []` from the source: the two propositions below
-  (the error class across the optimiser is proved: `render_correct_optimized_error_class`). -/
+* `parents = []` from the source: the named proposition `single_source_no_parents` below.
+  (The error class across the optimiser and the include lift are proved:
+  `render_correct_optimized_error_class`, `render_correct_optimized_includes`.) -/
 
-/-- The include lift: `Refine.render_correct_core` covers `include` on UNOPTIMISED chunks (runs
-through `Include` as derivations, `RunI.adequate`); `C09Vm.optimize_preserves_run` covers nested
-calls under `NestedOK`.  Composing them needs `NestedOK` for `Vm.interp` by induction on the
-include nesting of an environment ALL of whose chunks are stored (optimised) chunks — bC_opt's
-`C09Vm.optimize_preserves_render` is the same gap.  Statement: as `render_correct_optimized`, with
-`incs` includable templates related by `TemplatesRel` up to `storeChunk`, any nesting fuel `≥ D`. -/
-def render_correct_optimized_includes : Prop :=
-  ∀ (venv : Vm.Env) (eenv : Tera.Env), EnvRel venv eenv → BuiltinsRel venv eenv →
-  ∀ (incs : List String),
-    (∀ n ∈ incs, match eenv.template n with
-      | none => venv.template n = none
-      | some t => ∃ tpl, venv.template n = some tpl ∧
-          Pipeline.storeChunk tpl.name (nodesCode 0 none t.nodes) = .ok tpl.chunk ∧
-          tpl.autoescape = t.autoescape ∧ nodesInCore incs false t.nodes = true) →
-  ∀ (name : String) (tpl : TemplateInfo) (nodes : List Node),
-    venv.template name = some tpl → tpl.parents = [] →
-    Pipeline.storeChunk tpl.name (nodesCode 0 none nodes) = .ok tpl.chunk →
-    eenv.template name = some ⟨nodes, tpl.autoescape⟩ → nodesInCore incs false nodes = true →
-  ∀ (ctx g : Ctx) (fuel : Nat) (text : List Char), Tera.render fuel eenv name ctx g = .ok text →
-    ∃ N D, ∀ steps depth, N ≤ steps → D ≤ depth →
-      Vm.render ⟨depth + 1, steps⟩ venv name none ctx g = .ok text
+/-! ## `include` across the optimiser
+
+Every chunk of the environment is a STORED (optimised) chunk, the included templates' too.  The
+simulation of Props/Refine.lean follows the UNOPTIMISED chunk of the template being rendered turn
+by turn; at an `Include` it only needs to know what the NESTED CALL does (`IncOracle`,
+Lemmas/RefineNode.lean) — and the nested call runs the included template's stored chunk.  By
+induction on the evaluator's fuel: the included body is evaluated with less fuel, so the theorem
+for it (simulation on its unoptimised chunk, in the SAME environment of stored chunks, then
+bC_opt's `C09Vm.optimize_preserves_output_noblocks` — any nesting fuel, no assumption on nested
+calls, for chunks without `RenderBlock` / `super()`) is the oracle at that fuel.  The fuel of the
+model is monotone (`interp_mono`), which turns "the same text for every large fuel" into the one
+final state the nested call ends in. -/
+
+/-- The includable templates `incs` of an environment whose chunks are STORED chunks: the evaluator
+has the template exactly when the VM has it; the VM's template holds, under its own name, what
+`storeChunk` makes of the compiled body (decode ∘ optimize ∘ encode), with the same autoescape
+flag; the body passes the domain check (with the same `incs`) and its compiled code has no
+`RenderBlock` / `CallFunction("super")` (`codeNoBlockCalls`, an executable check). -/
+def StoredIncludes (venv : Vm.Env) (eenv : Tera.Env) (incs : List String) : Prop :=
+  ∀ n ∈ incs, match eenv.template n with
+    | none => venv.template n = none
+    | some t => ∃ tpl, venv.template n = some tpl ∧
+        Pipeline.storeChunk tpl.name (nodesCode 0 none t.nodes) = .ok tpl.chunk ∧
+        tpl.autoescape = t.autoescape ∧ nodesInCore incs false t.nodes = true ∧
+        codeNoBlockCalls (nodesCode 0 none t.nodes) = true
+
+/-- One `interpret` call on the STORED chunk of an in-domain statement list that may `include`
+the templates `incs`, from any start state with an empty stack and no open loop that the
+evaluator's state matches, GIVEN what nested calls do at smaller evaluator fuel (`IncOracle`):
+the evaluator's text, or a rendering error of the evaluator's class. -/
+theorem stored_run_includes (venv : Vm.Env) (eenv : Tera.Env) (hE : EnvRel venv eenv)
+    (hB : BuiltinsRel venv eenv) (incs : List String) (fuel : Nat)
+    (hO : ∀ f, f < fuel → IncOracle venv eenv (· ∈ incs) f)
+    (vm : VmCtx) (hov : vm.autoescapeOverride = none)
+    (nodes : List Node) (hcheck : nodesInCore incs false nodes = true)
+    (hnb : codeNoBlockCalls (nodesCode 0 none nodes) = true) (ch : Chunk)
+    (hst : Pipeline.storeChunk vm.template.name (nodesCode 0 none nodes) = .ok ch)
+    (st0 : State) (est0 : Tera.St) (hsim0 : StSim est0 st0) (h1 : st0.stack = [])
+    (h2 : st0.scope.forLoops = []) :
+    (∀ est', execNodes fuel eenv vm.autoescape est0 nodes = .ok (est', .normal) →
+      ∃ N D, ∀ steps depth, N ≤ steps → D ≤ depth →
+        ∃ st', Vm.run ⟨depth + 1, steps⟩ venv vm ch st0 = .done st' ∧ st'.out = est'.out)
+    ∧ (∀ err, execNodes fuel eenv vm.autoescape est0 nodes = .error err → reportable err = true →
+      ∃ N D, ∀ steps depth, N ≤ steps → D ≤ depth →
+        ∃ re, errMatch err re = true ∧ Vm.run ⟨depth + 1, steps⟩ venv vm ch st0 = .err re) := by
+  obtain ⟨c', code', hopt, hd, rfl⟩ := storeChunk_inv _ _ ch hst
+  obtain ⟨tcode, htyped⟩ := typedCode_nodes nodes
+  have hemb : embed (nodesCode 0 none nodes) = some tcode := htyped
+  have hlen := embed_length hemb
+  have hcode := codeAt_of_embed (name := vm.template.name) (pre := []) (post := []) hemb
+  simp only [List.nil_append, List.append_nil, List.length_nil] at hcode
+  have ht : reportTargetOk venv vm ⟨vm.template.name, tcode⟩ = true := by simp [reportTargetOk]
+  have hsim : NodeOutcome venv vm ⟨vm.template.name, tcode⟩ false none
+      (execNodes fuel eenv vm.autoescape est0 nodes) 0 (nodesCode 0 none nodes).length st0 :=
+    (nodeSimAt_of_oracle (lf := false) (Inc := (· ∈ incs)) hE hB ht hov fuel hO).nodes false nodes
+      (nodesInCore_sound incs false nodes hcheck) 0 none st0 est0 hsim0 (fun h => by cases h) hcode
+  -- the optimiser bridge, for every fuel
+  have hbridge := fun (fl : Vm.Fuel) =>
+    C09Vm.optimize_preserves_output_noblocks (Pipeline.decodeInstr (nodesCode 0 none nodes))
+      (Pipeline.decOK_decodeInstr _) (Pipeline.encode (nodesCode 0 none nodes)) c' tcode code'
+      vm.template.name (Pipeline.encode_targetsInRange nodes) (Pipeline.pathSpans_encode nodes)
+      (Pipeline.otherNoTarget_encode _) (by rw [Pipeline.mapM_encode]; exact htyped) hopt
+      (by rw [← Pipeline.decodeAll_eq_mapM]; exact hd)
+      (noBlockCalls_typed _ tcode htyped hnb) fl venv vm st0 h1 h2
+  have hrunEq : ∀ steps depth, Vm.run ⟨depth + 1, steps⟩ venv vm ⟨vm.template.name, tcode⟩ st0
+      = runLoop (interp venv steps depth) venv vm ⟨vm.template.name, tcode⟩ steps 0 st0 :=
+    fun _ _ => rfl
+  constructor
+  · intro est' hv
+    rw [hv] at hsim
+    obtain ⟨tr, sc', _, _, hrun, _, _⟩ := hsim
+    have hrun' : RunI venv vm ⟨vm.template.name, tcode⟩ 0 st0 tr
+        (0 + (nodesCode 0 none nodes).length) (withSc st0 est' sc') := hrun
+    obtain ⟨N, D, hND⟩ := hrun'.adequate
+    refine ⟨max N tr.length, D, fun steps depth hsteps hdepth => ?_⟩
+    have hdone : Vm.run ⟨depth + 1, steps⟩ venv vm ⟨vm.template.name, tcode⟩ st0
+        = .done (withSc st0 est' sc') := by
+      rw [hrunEq]
+      have := hND steps depth (by omega) hdepth (steps - tr.length)
+      rw [show tr.length + (steps - tr.length) = steps by omega] at this
+      rw [this, ← hlen]
+      exact runLoop_off_end _ _ _ _ _ _ _ (by simp)
+    have hb := hbridge ⟨depth + 1, steps⟩ (by rw [hdone]; intro h; cases h)
+    rw [hdone] at hb
+    cases hr' : Vm.run ⟨depth + 1, steps⟩ venv vm ⟨vm.template.name, code'⟩ st0 with
+    | done b => rw [hr'] at hb; exact ⟨b, rfl, hb.1⟩
+    | err e => rw [hr'] at hb; exact hb.elim
+    | panic s => rw [hr'] at hb; exact hb.elim
+    | unmodelled w => rw [hr'] at hb; exact hb.elim
+    | outOfFuel => rw [hr'] at hb; exact hb.elim
+  · intro err hv hrep
+    rw [hv] at hsim
+    obtain ⟨tr, re, hf, hm, _, _⟩ := hsim hrep
+    obtain ⟨N, D, hND⟩ := hf.adequate
+    refine ⟨max N tr.length, D, fun steps depth hsteps hdepth => ?_⟩
+    have herr : Vm.run ⟨depth + 1, steps⟩ venv vm ⟨vm.template.name, tcode⟩ st0 = .err re := by
+      rw [hrunEq]
+      have := hND steps depth (by omega) hdepth (steps - tr.length)
+      rw [show tr.length + (steps - tr.length) = steps by omega] at this
+      exact this
+    have hb := hbridge ⟨depth + 1, steps⟩ (by rw [herr]; intro h; cases h)
+    rw [herr] at hb
+    cases hr' : Vm.run ⟨depth + 1, steps⟩ venv vm ⟨vm.template.name, code'⟩ st0 with
+    | err e =>
+      rw [hr'] at hb
+      exact ⟨e, by rw [C09Vm.errMatch_errClassRel err hb]; exact hm, rfl⟩
+    | done b => rw [hr'] at hb; exact hb.elim
+    | panic s => rw [hr'] at hb; exact hb.elim
+    | unmodelled w => rw [hr'] at hb; exact hb.elim
+    | outOfFuel => rw [hr'] at hb; exact hb.elim
+
+/-- **The include oracle for stored chunks**, at every evaluator fuel: in an environment whose
+includable templates are stored chunks (`StoredIncludes`), the nested call of `Include` on the
+stored chunk ends with the text the evaluator writes for the included body, or fails in the
+evaluator's class. -/
+theorem stored_include_oracle (venv : Vm.Env) (eenv : Tera.Env) (hE : EnvRel venv eenv)
+    (hB : BuiltinsRel venv eenv) (incs : List String) (hS : StoredIncludes venv eenv incs) :
+    ∀ fuel, IncOracle venv eenv (· ∈ incs) fuel := by
+  intro fuel
+  induction fuel using Nat.strong_induction_on with
+  | _ fuel ih =>
+    intro vm hov name hinc st est hst
+    have hrel := hS name hinc
+    cases het : eenv.template name with
+    | none => rw [het] at hrel; exact hrel
+    | some t =>
+      rw [het] at hrel
+      obtain ⟨tpl, hvt, hstore, hae, hcheck, hnb⟩ := hrel
+      refine ⟨tpl, hvt, ?_⟩
+      have haeI : (inclVm vm tpl).autoescape = t.autoescape := by
+        simp [VmCtx.autoescape, inclVm, hov, hae]
+      have hR := stored_run_includes venv eenv hE hB incs fuel ih (inclVm vm tpl) hov t.nodes hcheck
+        hnb tpl.chunk hstore (includeState st)
+        { scope := Scope.included est.scope, out := [], captures := [] }
+        ⟨hst.1.included, rfl, rfl⟩ rfl rfl
+      rw [haeI] at hR
+      cases hr : execNodes fuel eenv t.autoescape
+          { scope := Scope.included est.scope, out := [], captures := [] } t.nodes with
+      | error err =>
+        intro hrep
+        exact inclErr_of_runs (P := fun re => errMatch err re = true) (hR.2 err hr hrep)
+      | ok p =>
+        obtain ⟨est', sig⟩ := p
+        intro hsig
+        simp only at hsig
+        subst hsig
+        exact inclDone_of_runs (hR.1 est' hr)
+
+/-- **`render_correct_optimized_includes`** (formerly a named gap): `render_correct_optimized`
+for templates that `include` the templates `incs`, every chunk of the VM's table — the rendered
+template's and the included ones', transitively — being what the pipeline STORES (compiled and
+optimised).  Same text; when the evaluator fails with a reportable error, a rendering error of the
+evaluator's class.  Any step fuel `≥ N` and nesting fuel `≥ D` (`N`, `D` depend on the run only:
+the include nesting actually entered). -/
+theorem render_correct_optimized_includes (venv : Vm.Env) (eenv : Tera.Env) (hE : EnvRel venv eenv)
+    (hB : BuiltinsRel venv eenv) (incs : List String) (hS : StoredIncludes venv eenv incs)
+    (name : String) (tpl : TemplateInfo) (nodes : List Node)
+    (hv : venv.template name = some tpl) (hpar : tpl.parents = [])
+    (hst : Pipeline.storeChunk tpl.name (nodesCode 0 none nodes) = .ok tpl.chunk)
+    (he : eenv.template name = some ⟨nodes, tpl.autoescape⟩)
+    (hcheck : nodesInCore incs false nodes = true)
+    (hnb : codeNoBlockCalls (nodesCode 0 none nodes) = true) (ctx g : Ctx) (fuel : Nat) :
+    (∀ text, Tera.render fuel eenv name ctx g = .ok text →
+      ∃ N D, ∀ steps depth, N ≤ steps → D ≤ depth →
+        Vm.render ⟨depth + 1, steps⟩ venv name none ctx g = .ok text)
+    ∧ (∀ err, Tera.render fuel eenv name ctx g = .error err → reportable err = true →
+      ∃ N D, ∀ steps depth, N ≤ steps → D ≤ depth →
+        ∃ re, errMatch err re = true ∧ Vm.render ⟨depth + 1, steps⟩ venv name none ctx g = .err re) := by
+  have hS' := stored_run_includes venv eenv hE hB incs fuel
+    (fun f _ => stored_include_oracle venv eenv hE hB incs hS f)
+    { template := tpl, autoescapeOverride := none, depth := 0 } rfl nodes hcheck hnb tpl.chunk hst
+    (entryState none ctx g) { scope := Scope.root ctx g, out := [], captures := [] }
+    ⟨ScopeSim.refl _, rfl, rfl⟩ rfl rfl
+  have hae : ({ template := tpl, autoescapeOverride := none, depth := 0 } : VmCtx).autoescape
+      = tpl.autoescape := rfl
+  rw [hae] at hS'
+  have hrender : ∀ steps depth, Vm.render ⟨depth + 1, steps⟩ venv name none ctx g
+      = outcomeOf none (Vm.run ⟨depth + 1, steps⟩ venv
+          { template := tpl, autoescapeOverride := none, depth := 0 }
+          tpl.chunk (entryState none ctx g)) := by
+    intro steps depth
+    simp only [Vm.render, hv, lineageMissing, Bool.false_eq_true, if_false, entryChunk, hpar,
+      List.head?_nil]
+  constructor
+  · intro text htext
+    simp only [Tera.render, he] at htext
+    cases hr : execNodes fuel eenv tpl.autoescape
+        { scope := Scope.root ctx g, out := [], captures := [] } nodes with
+    | error err => simp [hr] at htext
+    | ok p =>
+      obtain ⟨est', sig⟩ := p
+      cases sig with
+      | normal =>
+        simp only [hr, Except.ok.injEq] at htext
+        obtain ⟨N, D, hN⟩ := hS'.1 est' hr
+        refine ⟨N, D, fun steps depth hsteps hdepth => ?_⟩
+        obtain ⟨st', hrun, hout⟩ := hN steps depth hsteps hdepth
+        rw [hrender, hrun]
+        simp only [outcomeOf, Option.isSome_none, Bool.false_eq_true, if_false, hout, htext]
+      | brk => simp [hr] at htext
+      | cont => simp [hr] at htext
+  · intro err herr hrep
+    simp only [Tera.render, he] at herr
+    cases hr : execNodes fuel eenv tpl.autoescape
+        { scope := Scope.root ctx g, out := [], captures := [] } nodes with
+    | ok p =>
+      obtain ⟨est', sig⟩ := p
+      cases sig <;> simp only [hr] at herr
+      · cases herr
+      · cases herr; simp [reportable] at hrep
+      · cases herr; simp [reportable] at hrep
+    | error err' =>
+      simp only [hr, Except.error.injEq] at herr
+      subst herr
+      obtain ⟨N, D, hN⟩ := hS'.2 err' hr hrep
+      refine ⟨N, D, fun steps depth hsteps hdepth => ?_⟩
+      obtain ⟨re, hm, hrun⟩ := hN steps depth hsteps hdepth
+      exact ⟨re, hm, by rw [hrender, hrun]; rfl⟩
+
+/-! ### … and from source text, several sources -/
+
+/-- What the evaluator's table holds for the names `incs`, against a batch of SOURCES filed by
+`addTemplatesT` in `env`: the evaluator has the name exactly when the registry resolves it; its
+body is the body the front end parses from the source(s) filed under the resolved template's own
+name (`tpl.name`: the name itself, or what a prefix alias resolves to), with the autoescape flag the
+registry derived; the body passes the two executable checks. -/
+def SourcesRel (cfg : Pipeline.Config) (sources : List (String × Tera.Bytes)) (env : Pipeline.Env)
+    (eenv : Tera.Env) (incs : List String) : Prop :=
+  ∀ n ∈ incs, match eenv.template n with
+    | none => env.template n = none
+    | some et => ∃ tpl, env.template n = some tpl ∧ tpl.autoescape = et.autoescape ∧
+        (∀ src t, (tpl.name, src) ∈ sources → Pipeline.front cfg.delims src = .ok t →
+          t.nodes = et.nodes) ∧
+        nodesInCore incs false et.nodes = true ∧ codeNoBlockCalls (nodesCode 0 none et.nodes) = true
+
+/-- after `addTemplatesT`, `SourcesRel` is `StoredIncludes`: every entry of the table holds the
+stored chunk of its source's compiled body (`template_entry_sources`) -/
+theorem storedIncludes_of_sources (cfg : Pipeline.Config) (sources : List (String × Tera.Bytes))
+    (env : Pipeline.Env) (hadd : Pipeline.addTemplatesT cfg sources = .ok env) (eenv : Tera.Env)
+    (incs : List String) (h : SourcesRel cfg sources env eenv incs) :
+    StoredIncludes env eenv incs := by
+  intro n hn
+  have hrel := h n hn
+  cases het : eenv.template n with
+  | none => rw [het] at hrel; exact hrel
+  | some et =>
+    rw [het] at hrel
+    obtain ⟨tpl, htpl, hae, hsrc, hcheck, hnb⟩ := hrel
+    obtain ⟨src, hm, t, hf, hst⟩ := template_entry_sources cfg sources env hadd n tpl htpl
+    rw [hsrc src t hm hf] at hst
+    exact ⟨tpl, htpl, hst, hae, hcheck, hnb⟩
+
+/-- **`source_to_output_includes`**: `source_to_output_semantics` for a batch of sources that
+`include` each other.  `Pipeline.renderSourcesT` (lexer, whitespace filter, parser, compiler,
+optimiser on EVERY chunk, registry, VM) on the batch renders `name` to the text the evaluator
+gives on the parsed ASTs, and fails in the evaluator's class where the evaluator fails, when the
+names `incs` (the rendered template among them) are related as `SourcesRel` says and the rendered
+template is filed without parents.  Any step fuel `≥ N`, nesting fuel `≥ D`. -/
+theorem source_to_output_includes (cfg : Pipeline.Config) (sources : List (String × Tera.Bytes))
+    (env : Pipeline.Env) (hadd : Pipeline.addTemplatesT cfg sources = .ok env)
+    (eenv : Tera.Env) (hE : EnvRel env eenv) (hB : BuiltinsRel env eenv) (incs : List String)
+    (hS : SourcesRel cfg sources env eenv incs) (name : String) (hname : name ∈ incs)
+    (et : TemplateDef) (he : eenv.template name = some et)
+    (hpar : ∀ tpl, env.template name = some tpl → tpl.parents = []) (ctx : Ctx) (fuel : Nat) :
+    (∀ text, Tera.render fuel eenv name ctx [] = .ok text →
+      ∃ N D, ∀ steps depth, N ≤ steps → D ≤ depth →
+        Pipeline.renderSourcesT cfg sources ⟨depth + 1, steps⟩ name ctx = .ok (.ok text))
+    ∧ (∀ err, Tera.render fuel eenv name ctx [] = .error err → reportable err = true →
+      ∃ N D, ∀ steps depth, N ≤ steps → D ≤ depth → ∃ re, errMatch err re = true ∧
+        Pipeline.renderSourcesT cfg sources ⟨depth + 1, steps⟩ name ctx = .ok (.err re)) := by
+  have hSt := storedIncludes_of_sources cfg sources env hadd eenv incs hS
+  have hrel := hSt name hname
+  rw [he] at hrel
+  obtain ⟨tpl, htpl, hst, hae, hcheck, hnb⟩ := hrel
+  obtain ⟨enodes, eae⟩ := et
+  simp only at hst hae hcheck hnb
+  subst hae
+  have h := render_correct_optimized_includes env eenv hE hB incs hSt name tpl enodes htpl
+    (hpar tpl htpl) hst he hcheck hnb ctx [] fuel
+  have hrs : ∀ fl, Pipeline.renderSourcesT cfg sources fl name ctx
+      = .ok (Vm.render fl env name none ctx []) := by
+    intro fl
+    simp only [Pipeline.renderSourcesT, hadd, Pipeline.render]
+  refine ⟨fun text ht => ?_, fun err herr hrep => ?_⟩
+  · obtain ⟨N, D, hN⟩ := h.1 text ht
+    exact ⟨N, D, fun steps depth hs hd => by rw [hrs, hN steps depth hs hd]⟩
+  · obtain ⟨N, D, hN⟩ := h.2 err herr hrep
+    refine ⟨N, D, fun steps depth hs hd => ?_⟩
+    obtain ⟨re, hm, hre⟩ := hN steps depth hs hd
+    exact ⟨re, hm, by rw [hrs, hre]⟩
 
 /-- The error class across the optimiser (formerly a named gap, now proved through bC_opt's
 `C09VmErr.optimize_preserves_output_errclass` + `errMatch_errClassRel`): the stored chunk fails in
@@ -336,5 +619,47 @@ example : agreeE2E ("{% for k, v in m %}{{ k ~ '=' ~ v }}{% if v == 7 %}{% conti
 example : agreeE2E "{{ zz.y }}" srcCtx = true := by decide +kernel
 example : agreeE2E "a{{ a.b.c }}" srcCtx = true := by decide +kernel
 example : agreeE2E "{{ xs | first + 'a' }}" srcCtx = true := by decide +kernel
+
+/-! ### `include` through the whole pipeline: several sources -/
+
+/-- `Pipeline.renderSourcesT` on several sources (every chunk stored = optimised) against the
+evaluator on the parsed ASTs; every body must pass the domain check with the other names
+includable, and the `codeNoBlockCalls` check -/
+def agreeE2Es (srcs : List (String × String)) (main : String) (ctx : Ctx) : Bool :=
+  let names := srcs.map (·.1)
+  let parsed := srcs.filterMap fun (n, src) =>
+    match Pipeline.front exCfg.delims (srcOf src) with
+    | .ok t => some (n, t.nodes)
+    | _ => none
+  parsed.length == srcs.length &&
+  parsed.all (fun (_, nodes) => nodesInCore names false nodes && codeNoBlockCalls (nodesCode 0 none nodes)) &&
+  (match Tera.render 60 { exEenv with templates := parsed.map fun (n, nodes) => (n, ⟨nodes, true⟩) } main ctx [],
+      Pipeline.renderSourcesT exCfg (srcs.map fun (n, src) => (n, srcOf src)) ⟨4, 3000⟩ main ctx with
+  | .ok text, .ok (.ok text') => text == text' && !text.isEmpty
+  | .error err, .ok (.err re) => errMatch err re
+  | _, _ => false)
+
+/-- the included templates read the includer's loop and variables through fused `LoadPath` /
+`WritePath`; `foot.html` includes in turn -/
+def exSrcs : List (String × String) :=
+  [("main.html", "{% set t = 'T' %}{% for x in xs %}{% include 'row.html' %}{% endfor %}"
+      ++ "{% include 'foot.html' %}"),
+   ("row.html", "[{{ loop.index }}:{{ x }}{{ t }}{% set t = x %}{{ t }}{{ a.b }}]"),
+   ("foot.html", "{{ t }}{{ name | upper }}{% include 'row.html' %}")]
+
+example : agreeE2Es exSrcs "main.html" (("x", .u64 5) :: srcCtx) = true := by decide +kernel
+/-- an error inside an included template, found through a fused instruction -/
+example : agreeE2Es [("m2.html", "a{% include 'bad.html' %}"), ("bad.html", "{{ zz.y.w }}")]
+    "m2.html" srcCtx = true := by decide +kernel
+/-- a missing include never reaches the VM through the pipeline: the registry refuses it at add
+time (the VM-level case is `Refine.agreeTs … "m2"`, Props/Refine.lean) -/
+example : (match Pipeline.renderSourcesT exCfg [("m3.html", srcOf "a{% include 'nope.html' %}")]
+      ⟨4, 3000⟩ "m3.html" srcCtx with
+    | .error _ => true
+    | .ok _ => false) = true := by decide +kernel
+/-- `super()` is what `codeNoBlockCalls` excludes (the domain check alone accepts it) -/
+example : (match Pipeline.front exCfg.delims (srcOf "{{ super() }}") with
+    | .ok t => nodesInCore [] false t.nodes && !codeNoBlockCalls (nodesCode 0 none t.nodes)
+    | _ => false) = true := by decide +kernel
 
 end Tera.RefineE2E
